@@ -243,7 +243,7 @@ func (poolprogScn) Run(t *testing.T, seed uint64, plan any, o RunOpts) *Report {
 			i, progs := i, progs
 			g.goTask(fmt.Sprintf("prog%d", i), func() {
 				for k, pr := range progs {
-					got := runProg(p.Nonce, pr, func() { simrt.ForceYield("poolprog") })
+					got := runProg(p.Nonce, pr, func() { hYield("poolprog") })
 					if !bytes.Equal(got, expected[i][k]) {
 						simrt.Fail("C18-differs", "task %d program %d (kind %d, n %d): the result under concurrency and pool reuse differs from the result of the same program run alone: got %d bytes %q..., alone %d bytes %q...",
 							i, k, pr.Kind, pr.N, len(got), trunc(string(got), 60), len(expected[i][k]), trunc(string(expected[i][k]), 60))
